@@ -104,7 +104,7 @@ Init == tid = 0
 Next == \\/ tid = 0 /\\ tid' \\in { -b : b \\in 1..NB }
         \\/ tid < 0 /\\ tid' \\in { t \\in 1..Len(Traces) : (t %% NB) + 1 = -tid }
 JSpec == Init /\\ [][Next]_tid
-Judge == tid <= 0 \\/ LET v == %(verdict)s(Traces[tid]%(field)s) IN v = "ok" \\/ PrintT(<<"REJECT", Traces[tid].id, v>>)
+Judge == tid <= 0 \\/ LET v == %(verdict)s(Traces[tid]%(field)s) IN v = "ok" \\/ PrintT(ToJson([reject |-> Traces[tid].id, clause |-> v]))
 ====
 """
 JUDGE_CFG = "SPECIFICATION JSpec\nINVARIANT Judge\nCHECK_DEADLOCK FALSE\n"
@@ -122,10 +122,11 @@ def _judge_batch(args):
         if res.violated:
             return None, 'judge run failed: %s' % res.error
         rej = []
-        for line in res.tuples:
-            tup = tlc.parse_tuple(line)
-            if tup and tup[0] == 'REJECT':
-                rej.append((tup[1], tup[2]))
+        for l in res.lines:
+            if isinstance(l, dict) and 'reject' in l:
+                rej.append((l['reject'], l['clause']))
+        if len(rej) != res.raw.count('\\"reject\\"'):
+            return None, 'could not parse every rejection printed by the judge (%d of %d)' % (len(rej), res.raw.count('\\"reject\\"'))
         if res.distinct != len(part) + NPROC + 1:
             return None, 'judge visited %d states for %d traces' % (res.distinct, len(part))
         return (rej, res.distinct), None
